@@ -80,6 +80,7 @@ theorem rx2_complete_tie [Gen.SessionRx.MacOps RegionState] (hnl : NextLowerOk) 
   have hd : Gen.Session.ADR_ACK_DELAY.toNat = 32 := by decide
   obtain ⟨c', hc', hcn, hc1, hc2⟩ := sat_bridge h3 h4
   unfold Gen.SessionRx.Session.rx2_complete
+  try gen_unfold_helpers_SessionRx
   simp only [rx2Complete, sessOf, cfgOf, hnl rs, e2, e2', e3, e4, e5, e6, hl, hd, hc', hcn,
     Option.bind_eq_bind, Option.bind_some, Option.pure_def]
   by_cases hx : fu = 4294967295
